@@ -386,6 +386,43 @@ func c11Run(rc *core.RunCtx) {
 	// are too short to reach
 	rc.Part = "targets"
 	c11Targets(rc)
+	// (5c) string and bytes literals: every body of up to 3 (thorough 4) units over the pieces
+	// escapes are made of and the characters that may cut one short (ASCII, Latin-1, beyond
+	// U+00FF, astral, a byte that is not UTF-8, NUL, newline, the quote itself), in every
+	// prefix x quote style x mode: the decoders index tables and slices with what they read
+	rc.Part = "literals"
+	{
+		units := []string{"\\", "x", "u", "U", "N", "{", "}", "0", "4", "a", "g", "Ł", "é", "€", "\U0001f600", "\xff", "\x00", "\n", "'"}
+		maxLen := 3
+		if !rc.Quick() {
+			maxLen = 4
+		}
+		var rec func(body string, n int)
+		rec = func(body string, n int) {
+			if rc.Expired() || rc.Done() {
+				return
+			}
+			if n > 0 {
+				for _, pf := range []string{"", "b", "r", "rb", "u"} {
+					for _, q := range []string{"'", `"""`} {
+						lit := pf + q + body + q
+						for _, m := range c11Modes {
+							if rc.Take() {
+								c11One(rc, lit, m, "literal")
+							}
+						}
+					}
+				}
+			}
+			if n == maxLen {
+				return
+			}
+			for _, u := range units {
+				rec(body+u, n+1)
+			}
+		}
+		rec("", 0)
+	}
 	// (6) size limits: many constants / names / long jumps / deep nesting
 	rc.Part = "limits"
 	for _, g := range c11Limits(rc.Quick()) {
